@@ -54,3 +54,5 @@ for rn in (1, 3):
 OBS.append(Ob(['C02'], 'ser_custom_writer', 'doc', 'harness/doc_ser.c', 'h_ser_custom', unwind=10, desc='serializeJson([i,"s0s1"]) into a custom writer that accepts only `room` bytes: returned count == bytes accepted == min(room,length)', bound='i in -128..127, all string bytes, room 0..length+2', **dict(H, hunwind=44)))
 for how, nm in [(0, 'swap'), (1, 'move')]:
     OBS.append(Ob(['C05'], 'swap_overflow_' + nm, 'doc', 'harness/doc_hist.c', 'h_swap_overflow', defs=['SWAPHOW=%d' % how], unwind=8, desc='overflowed() follows the content through %s' % nm, bound='all 64-bit values needing an extension slot, all int32', **H))
+for pp, pf in [(4, 1), (4, 0)]:   # p=0 (null document turned into an array by the assignment) gave no verdict: VariantData::clear recursion over a symbolic tag
+    OBS.append(Ob(['C05', 'C04'], 'hist_pad_p%d_fail%d' % (pp, pf), 'doc', 'harness/doc_hist.c', 'h_pad_fail', defs=['PADP=%d' % pp, 'PADFAIL=%d' % pf], unwind=8, desc='doc[%d] = x on %d elements with %s: %s' % (pp + 1, pp, 'one transient failure of the pool allocation for the first padding element' if pf else 'no failure', 'reported, overflowed(), nothing at a wrong index' if pf else 'null gap, value at its index'), bound='all int32 values', **H))
